@@ -186,6 +186,8 @@ type inst struct {
 	// R13: locals that hold a reference (interface, pointer to a foreign type) copied out of a
 	// field of a shared struct: the object behind them is as shared as the field
 	aliases map[types.Object]bool
+	// ... and locals that name the backing store of a shared slice or map
+	contAliases map[types.Object]bool
 }
 
 func (in *inst) site(n ast.Node) string {
@@ -683,6 +685,7 @@ func (in *inst) sharedSel(e ast.Expr) bool {
 // object every goroutine can reach; method calls through it are yield points like the field itself.
 func (in *inst) findAliases() {
 	in.aliases = map[types.Object]bool{}
+	in.contAliases = map[types.Object]bool{}
 	note := func(lhs, rhs ast.Expr) {
 		id, ok := lhs.(*ast.Ident)
 		if !ok || id.Name == "_" {
@@ -694,6 +697,29 @@ func (in *inst) findAliases() {
 				break
 			}
 			rhs = p.X
+		}
+		// a local that copies a package-level slice, array-pointer or map, or a slice / map held in a
+		// shared struct, names the same backing store: every later use of it is a shared access
+		t0 := in.info.TypeOf(rhs)
+		if t0 != nil {
+			container := false
+			switch t0.Underlying().(type) {
+			case *types.Slice, *types.Map:
+				container = true
+			}
+			global := false
+			if gid, ok := rhs.(*ast.Ident); ok {
+				if v, ok := in.info.Uses[gid].(*types.Var); ok && v.Pkg() != nil && v.Parent() == v.Pkg().Scope() && strings.HasPrefix(v.Pkg().Path(), "Havoc/") {
+					global = true
+				}
+			}
+			if container && (global || in.sharedSel(rhs)) {
+				if obj := in.info.ObjectOf(id); obj != nil && obj.Parent() != in.pkg.Types.Scope() {
+					in.contAliases[obj] = true
+					st.aliases++
+				}
+				return
+			}
 		}
 		if !in.sharedSel(rhs) {
 			return
@@ -776,6 +802,11 @@ func (in *inst) touchesShared(s ast.Stmt) (read bool) {
 					return false
 				}
 			case *ast.Ident:
+				if len(in.contAliases) > 0 && in.contAliases[in.info.Uses[x]] {
+					st.aliasCalls++
+					read = true
+					return false
+				}
 				// R14: a package-level slice, array or map of a Havoc package is shared by every goroutine
 				if v, ok := in.info.Uses[x].(*types.Var); ok && v.Pkg() != nil && v.Parent() == v.Pkg().Scope() && strings.HasPrefix(v.Pkg().Path(), "Havoc/") {
 					switch v.Type().Underlying().(type) {
@@ -974,6 +1005,19 @@ func pureChain(e ast.Expr) bool {
 
 func (in *inst) assign(c *astutil.Cursor, as *ast.AssignStmt) {
 	if !in.canInsert(c) {
+		return
+	}
+	// R15: reads and writes of a map that lives in a shared struct
+	if ms := in.mapAccesses(as); len(ms) > 0 {
+		for _, m := range ms {
+			st.mapAcc++
+			w := "false"
+			if m.write {
+				w = "true"
+			}
+			site := &ast.BasicLit{Kind: token.STRING, Value: strconv.Quote(in.site(as))}
+			c.InsertBefore(&ast.ExprStmt{X: in.call("MapAccess", site, cloneSel(m.x), ast.NewIdent(w))})
+		}
 		return
 	}
 	wr := false
